@@ -33,6 +33,9 @@ META = dict(
     outside=["float overflow at magnitudes ~1e4+", "block_neural_autoregressive_flow / triangular_spline_flow factories (cannot be constructed in this environment)"],
 )
 
+# exp / expm1 overflow to +inf above log(max float64); the replay runs in float64, so a model beyond the threshold reproduces there
+EXP_OVERFLOW = 709.782712893384
+
 LEAVES_Q = ["affine2", "loc", "scale", "tri2l", "exp", "expvec", "softplus", "tanh", "leakytanh", "rqs1", "rqs1b", "planar2", "planar2s", "planar2tanh", "addcond", "perm3"]
 LEAVES_T = LEAVES_Q + ["rqs2", "rqs2b", "tri3u", "planar1", "affine22"]
 
@@ -94,6 +97,7 @@ def ob_leaf(name, orient, case_name):
     case = [c for c in cases if c.name == case_name][0]
     outside = case in cases[len(spec.y_cases()):] if orient == "fwd" else False
     ctx = Ctx()
+    ctx.exp_overflow = EXP_OVERFLOW
     I = Interp(ctx)
     assume = spec.invariants(ctx) + case.assume
     set_path(assume, ctx.facts)
@@ -221,6 +225,7 @@ def ob_flow(kind, layers=1, invert=True, symbolic=True, xcase="all"):
     syms = [symarr(f"p{i}", l.shape) for i, l in enumerate(leaves)] if symbolic else [jx.oarr(np.asarray(l)) for l in leaves]
     x = symarr("x", d.shape)
     ctx = Ctx()
+    ctx.exp_overflow = EXP_OVERFLOW if not symbolic else None     # overflow modelling with concrete parameters only (x symbolic)
     I = Interp(ctx)
     set_path([], ctx.facts)
     try:
